@@ -1,8 +1,11 @@
 package props
 
 import (
+	"errors"
 	"fmt"
 	"strings"
+
+	"github.com/go-kid/ioc/container"
 
 	"verif/internal/core"
 	"verif/internal/envx"
@@ -179,10 +182,48 @@ type c09UnsatCase struct {
 	scen.GraphProg
 }
 
+// eager components that are container extension points as well (a factory post-processor, a
+// scanner) and carry a required point nothing can satisfy / an Init that fails: they are ordinary
+// components too, start-up has to fail
+type c9FPPBad struct {
+	X scen.Iface `wire:"nobody"`
+}
+
+func (*c9FPPBad) Naming() string                                      { return "zz-fppbad" }
+func (*c9FPPBad) PostProcessComponentFactory(container.Factory) error { return nil }
+
+type c9ScanBad struct {
+	X scen.Iface `wire:"nobody"`
+}
+
+func (*c9ScanBad) Naming() string { return "zz-scanbad" }
+func (*c9ScanBad) PostProcessDefinitionRegistry(container.DefinitionRegistry, any, string) error {
+	return nil
+}
+
+type c9FPPInit struct{}
+
+func (*c9FPPInit) Naming() string                                      { return "zz-fppinit" }
+func (*c9FPPInit) PostProcessComponentFactory(container.Factory) error { return nil }
+func (*c9FPPInit) Init() error {
+	return errors.New("init of the factory post-processor component fails")
+}
+
+type c9ScanInit struct{}
+
+func (*c9ScanInit) Naming() string { return "zz-scaninit" }
+func (*c9ScanInit) PostProcessDefinitionRegistry(container.DefinitionRegistry, any, string) error {
+	return nil
+}
+func (*c9ScanInit) AfterPropertiesSet() error {
+	return errors.New("AfterPropertiesSet of the scanner component fails")
+}
+
 func c09Unsat(c *core.Ctx) {
 	gen := func(yield func(c09UnsatCase) bool) {
 		alpha := []int{scen.ENone, scen.EName, scen.ESlice}
 		kinds := []string{"name-req", "name-opt", "type-req", "type-opt", "cfg-req", "cfg-opt", "func-req", "func-opt", "custom-req", "custom-opt", "pfx-req", "pfx-opt", "nametype-req", "nametype-opt", "cfgtypes-opt", "cfgempty-opt", "pfxtypes-opt"}
+		extKinds := []string{"ext-fpp-req", "ext-scan-req", "ext-fppinit-req", "ext-scaninit-req"}
 		allGraphs(3, alpha, false, func(e [][]int) bool {
 			for _, lz := range []int{0, 4} {
 				lazy := []bool{false, false, lz == 4}
@@ -194,6 +235,12 @@ func c09Unsat(c *core.Ctx) {
 						}
 					}
 				}
+				for _, k := range extKinds {
+					p := scen.GraphProg{N: 3, Edges: e, Lazy: lazy, Obs: 1, Config: true, Full: true, Family: "unsat-extension-component", Extra: []scen.Extra{{Node: 0, Kind: k}}}
+					if !yield(c09UnsatCase{p}) {
+						return false
+					}
+				}
 			}
 			return true
 		})
@@ -202,6 +249,16 @@ func c09Unsat(c *core.Ctx) {
 		p := &cs.GraphProg
 		ref := refGraph(p)
 		x := p.Extra[0]
+		switch x.Kind {
+		case "ext-fpp-req":
+			p.Attach = func(*scen.RT) []any { return []any{&c9FPPBad{}} }
+		case "ext-scan-req":
+			p.Attach = func(*scen.RT) []any { return []any{&c9ScanBad{}} }
+		case "ext-fppinit-req":
+			p.Attach = func(*scen.RT) []any { return []any{&c9FPPInit{}} }
+		case "ext-scaninit-req":
+			p.Attach = func(*scen.RT) []any { return []any{&c9ScanInit{}} }
+		}
 		o := scen.RunGraph(p, envx.Fixed("", nil))
 		c.S.Evaluations++
 		c.S.Programs++
